@@ -186,7 +186,7 @@ def run(ctx):
             ctx.ok("C17-R5", "T1 %s  %s" % (s.key, s.detail[:90]), s.loc(), r)
             continue
         ent = T2.get(s.key)
-        if ent and re.search(ent[0], s.shape()):
+        if ent and ledger.t2_match(ent, s)[0]:
             ctx.ok("C17-R5", "T2 %s" % s.key, s.loc(), ent[1])
             continue
         ctx.fail("C17-R5", s.fn, "%s %s" % (s.kind, s.api), "unaudited panic-capable construct in the label reader: `%s` (%s)" % (s.detail[:160], s.why), s.loc())
